@@ -201,7 +201,7 @@ def heldAt (r : Req) (e : Extractor) (tok : Str) : Prop :=
       (pfx ≠ [] → equalFold (v.take pfx.length) pfx = true ∧ v.length > pfx.length)
   | .query name => tok ∈ valuesOf name r.query
   | .form name => tok ∈ valuesOf name r.form ∨ tok ∈ valuesOf name r.query
-  | .param _ => False
+  | .param name => tok ∈ valuesOf name r.params
   | .cookie name => tok ∈ valuesOf name r.cookies
 
 theorem headerScan_held (pfx : Str) (vals : List Str) : ∀ (i : Nat) (tok : Str),
@@ -280,13 +280,22 @@ theorem extract_held (r : Req) (e : Extractor) (toks : List Str) (tok : Str)
     · simp at h
     · simp only [Option.some.injEq] at h; subst h
       have := List.mem_of_mem_take hm
-      simp only [formValues, List.mem_append] at this
-      rcases this with h1 | h1
-      · split at h1
-        · exact Or.inl h1
-        · simp at h1
-      · exact Or.inr h1
-  | param name => simp [extract] at h
+      simp only [formValues] at this
+      split at this
+      · simp only [List.mem_append] at this
+        exact this.symm
+      · simp only [List.mem_append] at this
+        rcases this with h1 | h1
+        · split at h1
+          · exact Or.inl h1
+          · simp at h1
+        · exact Or.inr h1
+  | param name =>
+    simp only [extract] at h
+    split at h
+    · simp at h
+    · simp only [Option.some.injEq] at h; subst h
+      exact cookieScan_held name _ 0 tok hm
   | cookie name =>
     simp only [extract] at h
     split at h
@@ -486,16 +495,16 @@ example : createExtractors (lit "header") = none := by decide
 
 /-! ## non-vacuity: concrete requests -/
 
-def cfgDefault : Cfg := ⟨4, [.header (lit "X-Csrf-Token") []], lit "_csrf", 0⟩
+def cfgDefault : Cfg := { tokenLength := 4, extractors := [.header (lit "X-Csrf-Token") []], cookieName := lit "_csrf" }
 /-- a custom ErrorHandler that writes 418 and returns nil: still rejected, handler not run -/
-def cfgCustomEH : Cfg := ⟨4, [.header (lit "X-Csrf-Token") []], lit "_csrf", 1⟩
+def cfgCustomEH : Cfg := { cfgDefault with errorHandler := 1 }
 
 def reqOK : Req :=
-  ⟨lit "POST", [(lit "_csrf", lit "tokn")], [(lit "X-Csrf-Token", lit "tokn")], [], [], []⟩
+  ⟨lit "POST", [(lit "_csrf", lit "tokn")], [(lit "X-Csrf-Token", lit "tokn")], [], [], [], [], false⟩
 def reqNear : Req :=
-  ⟨lit "POST", [(lit "_csrf", lit "tokn")], [(lit "X-Csrf-Token", lit "tokN")], [], [], []⟩
-def reqMissing : Req := ⟨lit "post", [(lit "_csrf", lit "tokn")], [], [], [], []⟩
-def reqFresh : Req := ⟨lit "GET", [], [], [], [], [0, 1, 26, 51, 0]⟩
+  ⟨lit "POST", [(lit "_csrf", lit "tokn")], [(lit "X-Csrf-Token", lit "tokN")], [], [], [], [], false⟩
+def reqMissing : Req := ⟨lit "post", [(lit "_csrf", lit "tokn")], [], [], [], [], [], false⟩
+def reqFresh : Req := ⟨lit "GET", [], [], [], [], [0, 1, 26, 51, 0], [], false⟩
 
 example : serve cfgDefault reqOK = .passed (lit "tokn") (lit "tokn") := by decide
 example : serve cfgDefault reqNear = .rejected 403 := by decide
@@ -503,5 +512,14 @@ example : serve cfgDefault reqMissing = .rejected 400 := by decide
 example : serve cfgCustomEH reqNear = .rejected 418 ∧ serve cfgCustomEH reqOK = .passed (lit "tokn") (lit "tokn") := by decide
 example : serve cfgDefault reqFresh = .passed (lit "ABaz") (lit "ABaz") := by decide
 example : cfgDefault.extractors ≠ [] ∧ safeMethod reqOK.method = false := by decide
+
+/-- a `form:` lookup finds the token in the multipart body of a DELETE request, but not in a
+    urlencoded body of the same request (net/http parses that for POST/PUT/PATCH only) -/
+def cfgForm : Cfg := { tokenLength := 4, extractors := [.form (lit "csrf")], cookieName := lit "_csrf" }
+example :
+    serve cfgForm ⟨lit "DELETE", [(lit "_csrf", lit "tokn")], [], [], [(lit "csrf", lit "tokn")], [], [], true⟩
+      = .passed (lit "tokn") (lit "tokn") ∧
+    serve cfgForm ⟨lit "DELETE", [(lit "_csrf", lit "tokn")], [], [], [(lit "csrf", lit "tokn")], [], [], false⟩
+      = .rejected 400 := by decide
 
 end C12
